@@ -78,6 +78,7 @@ SEEDS = [
     '2"a"', '2/x,"zz"', '2{"a":"§B0§"}', '2/c,"ab"', '2[]', '2/x,5{"zz":1}',
     '2"b§B0§"', '2null', '2/c,true', '51-"a"', '51-/x,"zz"',
     '31"abc"', '3/x,1{"a":1,"b":2}', '31', '3/c,1', '3/x,1"r"',
+    '5["a","x"]', '5/x,12["zz","x"]', '61["forged"]', '5/c,["a"]',
     '61-1{"_placeholder":true,"num":0}', '31[1]',
     '52-"ab"', '51-{"_placeholder":true,"num":0}',
 ]
@@ -341,6 +342,19 @@ def _run(case, w):
             try:
                 p = sio.packet_class(encoded_packet=body)
                 decodable = True
+                if ser == 'msgpack' and p.packet_type in (5, 6):
+                    # msgpack carries bytes inline: these types do not exist
+                    decodable = False
+                    labels['binary_type_without_count'] = True
+                if ser != 'msgpack' and isinstance(body, str) and \
+                        body[:1] in ('5', '6'):
+                    j = 1
+                    while j < len(body) and body[j] in '0123456789':
+                        j += 1
+                    if j == 1 or body[j:j + 1] != '-':
+                        # a binary packet announces its attachments
+                        decodable = False
+                        labels['binary_type_without_count'] = True
                 if p.packet_type in (2, 5) and not (
                         isinstance(p.data, list) and p.data):
                     # not an event: nothing names it, nothing to spread
